@@ -295,11 +295,6 @@ func (s *scope) closeFromOwner() error {
 func (s *scope) dispose() error {
 	var errs []error
 
-	// Cancel context
-	if s.cancel != nil {
-		s.cancel()
-	}
-
 	// Close all children first
 	s.childrenMu.Lock()
 	children := make([]*scope, 0, len(s.children))
@@ -313,6 +308,15 @@ func (s *scope) dispose() error {
 		if err := child.closeFromOwner(); err != nil {
 			errs = append(errs, fmt.Errorf("failed to close child scope: %w", err))
 		}
+	}
+
+	// Cancel context. This happens after the children are closed: cancelling
+	// wakes the watchers of all descendants whose contexts derive from this
+	// one at once, and a descendant closed and unregistered by its watcher
+	// before its own parent has listed it would escape the cascade -
+	// together with its disposal errors.
+	if s.cancel != nil {
+		s.cancel()
 	}
 
 	// Dispose all disposable scoped instances in reverse order
